@@ -92,6 +92,8 @@ CLASSES = {
     # label / key / file-name like: printable, no grouping, escape, comment, parameter, brackets
     'HIDDEN': minus(R('!..~', 'À..ſ', ' '), '{}\\%#[]'),
     'COMMENT': R(' ..~', 'À..ſ', '\t'),
+    # non-blank, non-active characters (any script, incl. format characters such as U+FEFF)
+    'PROSEW': minus([(0x21, 0x7E), (0xA1, 0xD7FF), (0xE000, 0x2FFFF)], '\\%#${}&~^_-`\'"[]'),
     # the characters LaTeX / YaLafi treat specially + a letter, a digit, blank, line break
     'SYNTAX': R('{', '}', '[', ']', '\\', '%', '#', '$', '&', '~', '^', '_', '=', ',', '-', '"', "'", '`', ' ', '\n', 'a', '1', '*', '|'),
     # every code point except the active characters that are not in the documented table
